@@ -33,15 +33,8 @@ func RenameOutput(callable syntax.Callable,
 					oldParam, newParam, pipe, edits)
 			}
 		}
-		// Fix up top-level call if needed.
-		if ast.Call != nil && ast.Call.DecId == callable.GetId() {
-			edits = append(edits, renameCallParamEdit{
-				File:     syntax.DefiningFile(ast.Call),
-				Id:       ast.Call.Id,
-				OldParam: oldParam,
-				NewParam: newParam,
-			})
-		}
+		// The top-level call only binds inputs, so there is nothing to
+		// fix up there for an output.
 	}
 	if len(edits) == 0 {
 		return nil
